@@ -43,6 +43,9 @@ def plan(prop, tier, seed):
         jobs += [dict(kind="lengths", prop=prop, seed=0, lo=a, hi=min(a + step, 232)) for a in range(1, 232, step)][:: (3 if q else 1)]
         if q:
             jobs += [dict(kind="lengths", prop=prop, seed=0, lo=a, hi=a + 3) for a in (73, 147, 221)]
+    if prop in ("C01", "C02", "C19", "C12", "C04"):
+        # the in-memory back end on its own (header rewrites, appends, lengths)
+        jobs += _hist(prop, S(n_short // 3, 15000), nops=nops, alpha="short", backend="memory")
     if prop in ("C01", "C02"):
         jobs += [dict(kind="bytevalues", prop=prop, seed=0, lo=a, hi=a + 32) for a in range(0, 256, 32)]
     if prop == "C19":
